@@ -417,6 +417,8 @@ func runHarness(P *Program, h *HarnessSpec, opts RunOpts) (res *HarnessResult) {
 	if opts.FrameCheck {
 		ex.installFrameCheck()
 	}
+	// obligations met while running package initialisers are not part of the harness
+	ex.obligations, ex.obTrivial = 0, 0
 	st := &State{ex: ex, base: ex.base, heap: map[int]*Object{}}
 	outs := ex.callFunc(st, FuncV{fn: h.fn}, nil, nil)
 	for _, o := range outs {
